@@ -577,6 +577,22 @@ func (fv *FuncVC) applyContract(site ssa.Instruction, fc *FuncContract, key stri
 		}
 		fv.oblige("pre", label, t, site.Pos(), c.Src)
 	}
+	// a callee that may panic under a stated condition: the caller must exclude it, unless the
+	// caller's own contract allows panics without restriction
+	if w, ok := fc.Opts["panics"]; ok {
+		w = strings.TrimSpace(strings.TrimPrefix(strings.TrimSpace(w), "when"))
+		cw := strings.TrimSpace(strings.TrimPrefix(strings.TrimSpace(fv.FC.Opts["panics"]), "when"))
+		_, callerMay := fv.FC.Opts["panics"]
+		if !(callerMay && (cw == "" || cw == "true")) {
+			if w == "" || w == "true" {
+				fv.oblige("pre", fmt.Sprintf("%s#%d.nopanic", short, n), tFalse, site.Pos(), "callee may panic unconditionally")
+			} else if pe, err := ParseExpr(w); err == nil {
+				fv.oblige("pre", fmt.Sprintf("%s#%d.nopanic", short, n), not(env.boolExpr(pe, fc.Pos)), site.Pos(), "callee's panic condition is excluded: !("+w+")")
+			} else {
+				fv.abort("panics clause of %s: %v", key, err)
+			}
+		}
+	}
 	// termination of recursion
 	if len(fc.Decr) > 0 && len(fv.FC.Decr) > 0 {
 		m := env.intExpr(fc.Decr[0].E, fc.Decr[0].Pos)
